@@ -27,6 +27,10 @@ fn cells(r: Result<Vec<f64>, u8>) -> Vec<Cell> {
     match r { Ok(v) => f64_cells(&v), Err(k) => vec![Cell::Panic(k)] }
 }
 
+fn cells3(r: Result<Vec<(f64, f64, f64)>, u8>) -> Vec<Cell> {
+    match r { Ok(v) => { let f: Vec<f64> = v.iter().flat_map(|t| [t.0, t.1, t.2]).collect(); f64_cells(&f) }, Err(k) => vec![Cell::Panic(k)] }
+}
+
 fn main() {
     let mut em = Emitter::new();
     let mut rng = Rng::new(em.args.seed);
@@ -139,6 +143,65 @@ fn main() {
                     em.case("custom:mask", &tags("deque"), &desc("deque"), || model_term(f, false, "f", &a_model),
                         || cells(guarded(std::panic::AssertUnwindSafe(|| roll_call!(fi, dq, &dy, &a, Vec<f64>)))));
                 }
+            }
+        }
+    }
+    // ---- audit (notes/C05.md "Audit matrix"): the 38th entry point ts_vregx_all (returned only: it has no `_to` twin, so
+    // the registry of 37 does not hold it) -> triples (alpha, beta, SSE), one mask cell per component; also with series of
+    // UNEQUAL length (iterator body: the common prefix; index body: the length assertion) and huge windows.
+    for si in 0..(if thorough { 60 } else { 14 }) {
+        let len = match si { 0 => 0, 1 => 1, 2 => 2, _ => rng.range(3, 11) as usize };
+        let (mut xs, pat) = series(&mut rng, len, si % 2 == 0);
+        let len2 = match si % 4 { 0 | 1 => len, 2 => len.saturating_sub(1 + (si % 3)), _ => len + 1 + si % 2 };
+        let (mut ys, _) = series(&mut rng, len2, si % 2 == 0);
+        // two series in three are made (almost) null-free and the regressor strictly varying, so that the windows hold
+        // pairwise-complete observations with spread and the triples are numbers (otherwise every output is null)
+        if si % 3 != 0 {
+            for (i, x) in xs.iter_mut().enumerate() { if x.is_nan() && i % 5 != 4 { *x = rng.range(-12, 12) as f64 / 4.0 } }
+            for (i, y) in ys.iter_mut().enumerate() { if i % 7 != 6 { *y = (i as i64 * 3 + rng.range(0, 2)) as f64 / 4.0 } }
+        }
+        let lens = if len2 == len { "equal" } else if len2 < len { "second_shorter" } else { "second_longer" };
+        let mut ws: Vec<usize> = vec![1, 2, 3, len.max(1), len + 1];
+        ws.sort(); ws.dedup();
+        for &w in ws.iter() {
+            for mp in [None, Some(0), Some(1.min(w)), Some(w), Some(w + 2)] {
+                let tags = |be: &str| format!("fn=ts_vregx_all be={} len={} lens={} wrel={} mp={} nulls={} style=audit{}", be, len.min(12), lens,
+                    if w > len { "gt" } else if w == len { "eq" } else { "lt" },
+                    match mp { None => "omitted".to_string(), Some(0) => "0".into(), Some(m) if m == w => "w".into(), Some(m) if m > w => "above".into(), _ => "mid".into() }, pat,
+                    if len == 0 { " nt=0" } else { "" });
+                let desc = |be: &str| format!("fn=ts_vregx_all be={} w={} mp={:?} xs={:?} ys={:?}", be, w, mp, xs, ys);
+                let term = |body: bool, enc: &str| format!("(run_two_{}{} 4 {} {} {} {} {})", enc, enc, vh::coq_bool(body), vh::coq_nat(w),
+                    vh::coq_opt(&mp, |m| vh::coq_nat(*m)), coq_series(&xs, enc), coq_series(&ys, enc));
+                em.case("custom:mask", &tags("vec"), &desc("vec"), || term(true, "f"),
+                    || cells3(guarded(std::panic::AssertUnwindSafe(|| { let r: Vec<(f64, f64, f64)> = xs.ts_vregx_all(&ys, w, mp); r }))));
+                let dq: VecDeque<f64> = vh::wrapped_deque(&xs);
+                let dy: VecDeque<f64> = vh::wrapped_deque(&ys);
+                em.case("custom:mask", &tags("deque"), &desc("deque"), || term(false, "f"),
+                    || cells3(guarded(std::panic::AssertUnwindSafe(|| { let r: Vec<(f64, f64, f64)> = dq.ts_vregx_all(&dy, w, mp); r }))));
+                if si % 2 == 0 {
+                    let xo: Vec<Option<f64>> = xs.iter().map(|x| if x.is_nan() { None } else { Some(*x) }).collect();
+                    let yo: Vec<Option<f64>> = ys.iter().map(|x| if x.is_nan() { None } else { Some(*x) }).collect();
+                    em.case("custom:mask", &tags("vec_opt"), &desc("vec_opt"), || term(true, "o"),
+                        || match guarded(std::panic::AssertUnwindSafe(|| { let r: Vec<(Option<f64>, Option<f64>, Option<f64>)> = xo.ts_vregx_all(&yo, w, mp); r })) {
+                            Ok(v) => { let f: Vec<Option<f64>> = v.iter().flat_map(|t| [t.0, t.1, t.2]).collect(); cells_optf64(&f) }
+                            Err(k) => vec![Cell::Panic(k)] });
+                }
+            }
+        }
+        // huge windows, explicit min_periods: the code at w in {2^40, usize::MAX}, the model at w = len + 1 (C05_huge_window_two_series)
+        if len2 >= len {
+            let mp = Some(rng.range(0, len as i64 + 1) as usize);
+            for wh in [1usize << 40, usize::MAX] {
+                let tags = |be: &str| format!("fn=ts_vregx_all be={} len={} lens={} wrel=huge mp=mid nulls={} style=audit{}", be, len.min(12), lens, pat, if len == 0 { " nt=0" } else { "" });
+                let desc = |be: &str| format!("fn=ts_vregx_all be={} w={} (model at w=len+1) mp={:?} xs={:?} ys={:?}", be, wh, mp, xs, ys);
+                let term = |body: bool| format!("(run_two_ff 4 {} {} {} {} {})", vh::coq_bool(body), vh::coq_nat(len + 1),
+                    vh::coq_opt(&mp, |m| vh::coq_nat(*m)), coq_series(&xs, "f"), coq_series(&ys, "f"));
+                em.case("custom:mask", &tags("vec"), &desc("vec"), || term(true),
+                    || cells3(guarded(std::panic::AssertUnwindSafe(|| { let r: Vec<(f64, f64, f64)> = xs.ts_vregx_all(&ys, wh, mp); r }))));
+                let dq: VecDeque<f64> = vh::wrapped_deque(&xs);
+                let dy: VecDeque<f64> = vh::wrapped_deque(&ys);
+                em.case("custom:mask", &tags("deque"), &desc("deque"), || term(false),
+                    || cells3(guarded(std::panic::AssertUnwindSafe(|| { let r: Vec<(f64, f64, f64)> = dq.ts_vregx_all(&dy, wh, mp); r }))));
             }
         }
     }
